@@ -202,6 +202,7 @@ func dhtIterate(nodes []NodeInfo, key []byte, n int, fn func(node NodeInfo) (new
 	if n < 1 {
 		panic(n)
 	}
+	visited := make(map[p2p.PeerID]struct{})
 	for len(nodes) > 0 {
 		// TODO: use a heap
 		slices.SortFunc(nodes, func(a, b NodeInfo) bool {
@@ -212,12 +213,19 @@ func dhtIterate(nodes []NodeInfo, key []byte, n int, fn func(node NodeInfo) (new
 		}
 		var node NodeInfo
 		node, nodes = pop(nodes)
+		if _, yes := visited[node.ID]; yes {
+			continue
+		}
+		visited[node.ID] = struct{}{}
 
 		newNodes, cont := fn(node)
 		if !cont {
 			break
 		}
 		for _, newNode := range newNodes {
+			if _, yes := visited[newNode.ID]; yes {
+				continue // never contact a node twice
+			}
 			if !DistanceLt(key, newNode.ID[:], node.ID[:]) {
 				continue // ignore peers that aren't actually closer
 			}
